@@ -126,6 +126,23 @@ func (d *directed) expect(metric string, c *chain, group []string, class, what s
 	return false
 }
 
+// expectRefused: a key the metric's schema does not have must be refused with `tag key not found`.
+func (d *directed) expectRefused(metric string, c *chain, what string) {
+	text := d.sql(metric, c.SQL(nil), "uid")
+	d.logf("query %s", text)
+	o := observe(d.c.Query(text), []string{"uid"})
+	d.res.Evals++
+	d.res.count("directed_queries", 1)
+	switch {
+	case strings.Contains(o.Err, "tag key not found"), o.Err == "" && len(o.Groups) == 0:
+		d.res.count("unknown_key_refused", 1)
+		d.res.count("directed_queries_matching_the_oracle", 1)
+	default:
+		d.res.violation("C10/unknown-tag-key-not-refused", fmt.Sprintf("directed %s: %s: expected `tag key not found`, got error %q and %d groups: %s", d.name, what, o.Err, len(o.Groups), text),
+			map[string]interface{}{"scenario": d.name, "sql": text, "error": o.Err})
+	}
+}
+
 func one(key, cmp string, vals ...string) *chain {
 	return &chain{Terms: []*term{{Atom: &atom{Key: key, Cmp: cmp, Vals: vals, BareKey: true}}}}
 }
@@ -158,10 +175,8 @@ func scenarioNarrowClasses(res *caseResult, dir string) {
 			"host=~'b' and host='~b' both render to `host=~b`")
 		d.expect("m", two(one("dc", "in", "x,y"), "or", one("dc", "in", "x", "y")), []string{"uid"}, "C10/atoms-with-equal-rewrite-share-one-lookup",
 			"dc in ('x,y') and dc in ('x','y') both render to `dc in (x,y)`")
-		d.expect("m", two(one("host", "=", "a"), "or", one("rack", "=", "r1")), []string{"uid"}, "C10/unknown-tag-key-fails-satisfiable-condition",
-			"`rack` is a key of another metric only; host='a' selects u0")
-		d.expect("m", two(one("host", "=", "a"), "or", one("nokey", "!=", "v")), []string{"uid"}, "C10/unknown-tag-key-fails-satisfiable-condition",
-			"`nokey` is a key nobody has; host='a' selects u0")
+		d.expectRefused("m", two(one("host", "=", "a"), "or", one("rack", "=", "r1")), "`rack` is a key of another metric only")
+		d.expectRefused("m", two(one("host", "=", "a"), "or", one("nokey", "!=", "v")), "`nokey` is a key nobody has")
 		d.expect("m", nil, []string{"dc"}, "C10/groupby/tag-value-with-comma-dropped", "the group dc='x,y' must be returned")
 		d.expect("m", one("host", "like", "*y"), []string{"host", "uid"}, "C10/groupby/tag-value-with-comma-dropped", "the group host='x,y' must be returned")
 		// never-seen values inside or / in: must simply not contribute
